@@ -174,9 +174,10 @@ impl Cfg {
         match fe {
             0 => {}
             1 => { c.o_neg = fine.max(1); c.s_neg = fine.max(1); }
-            2 => { c.o_pos = fine.max(1); c.o_neg = 2 * fine.max(1); c.l_factor = fine.max(1); }
+            2 => { c.o_pos = fine.max(1); c.o_neg = 2 * fine.max(1); c.l_factor = fine.max(1);
+                   c.l_recv = 3 * t; /* liquidation receiver share != 50 % */ }
             3 => { c.o_pos = fine.max(1); c.o_neg = fine.max(1); c.s_pos = fine.max(1); c.s_neg = 2 * fine.max(1);
-                   c.l_factor = 2 * fine.max(1); c.mcf_oi = 0; }
+                   c.l_factor = 2 * fine.max(1); c.l_recv = 7 * t; c.mcf_oi = 0; }
             // high order fees: a close can cost more than the collateral left
             _ => { c.o_pos = if d >= 2 { 5 } else { 2 }; c.o_neg = if d >= 2 { 8 } else { 3 }; }
         }
